@@ -37,7 +37,7 @@ CLAIMS = {
              'calls on self) reads cache state except through a memo accessor, memo cells are never compared/hashed/mutated '
              'themselves and all initialisers of a cell agree (MEMO); `==` of every type compares every data field (EQCOVER); '
              'Hash reads no data field Eq ignores, i.e. a==b implies equal hashes (HASH-IN-EQ); every hand-written Clone copies '
-             'every data field from self (CLONECOVER). NOT decided: "equal values give equal answers from every observer" as behaviour. Also registered here because the clauses depend on them: RESET/FRESH (the sorted accessor MEMO trusts is pure only if they hold), KEY/WRITEONCE (repeating an observer call never changes its answer), HASHALL (a container hash covers every element). Round 3: a cache shared between clones requires immutable data (CLONECOVER shared-cache); MEMO-RESET.',
+             'every data field from self (CLONECOVER). NOT decided: "equal values give equal answers from every observer" as behaviour. Also registered here because the clauses depend on them: RESET/FRESH (the sorted accessor MEMO trusts is pure only if they hold), KEY/WRITEONCE (repeating an observer call never changes its answer), HASHALL (a container hash covers every element). Round 3: a cache shared between clones requires immutable data (CLONECOVER shared-cache); MEMO-RESET. Round 3b: EQ-ALLPATHS — in a hand-written eq, every path to `true` compares every data field (no data-dependent shortcut to equality).',
         technique='field-access-set analysis (A-FIELDS) over Eq/Hash/Clone cones on MIR; DATA/CACHE classification by Freeze',
         design_ref='§5 C14'),
     'C18': dict(
@@ -54,7 +54,7 @@ CLAIMS = {
         text='Static, for all pairs of values: every data field that `==` compares is fed to the hasher, with named exemptions '
              '(SourceMapSource::name per the statement; fields constant in every constructor) (HASHCOVER); hash cones contain no '
              'address/TypeId/random/time/thread input, no hash-map iteration and construct only FxHasher (HASHDET); the memoised '
-             'hash is a function of the data only (MEMO). NOT decided: absence of accidental collisions, prefix-freeness. Added: HASHALL (no skipped elements in container hashes); RESET/FRESH/PUBLISH-ORDER are registered here too because the hash of a ReplaceSource goes through the sorted accessor.',
+             'hash is a function of the data only (MEMO). NOT decided: absence of accidental collisions, prefix-freeness. Added: HASHALL (no skipped elements in container hashes); RESET/FRESH/PUBLISH-ORDER are registered here too because the hash of a ReplaceSource goes through the sorted accessor. Round 3b: EQ-ALLPATHS registered here as well (a == that accepts early makes unequal values collide by definition).',
         technique='field-access-set comparison of Eq vs Hash cones; forbidden-callee scan over resolved callees',
         design_ref='§5 C20'),
     'C12': dict(
@@ -83,7 +83,7 @@ CLAIMS = {
              'has no recursion and its only loop consumes a slice iterator (DECODER-TOTAL; dev and, in thorough, release '
              'configuration); SourceMap::from_json/from_slice/from_reader add no panic site of their own and propagate every error '
              '(JSON-ENTRY; simd-json itself assumed total). NOT decided: panic-freedom of the streaming cone (≈250 arithmetic asserts, '
-             'indexing on map-supplied lines/indices) — reading found real panics there for wild maps; no discharge analysis is in reach. Added: CLAMP — ReplaceSource::source()/rope() slice the inner text only with bounds clamped to its length (replacement positions beyond the end are in the documented domain).',
+             'indexing on map-supplied lines/indices) — reading found real panics there for wild maps; no discharge analysis is in reach. Added: CLAMP — ReplaceSource::source()/rope() slice the inner text only with bounds clamped to its length (replacement positions beyond the end are in the documented domain). Round 4: INDEX-GUARDED — forward abstract interpretation of every body in the zone domain (difference constraints over integer locations and container lengths; guards, resize/growth loops, len()-derived indices, closure entry facts, widening) proves `index < len` for 52 of the 70 `container[usize]` accesses and MIR bounds checks of the crate; the other 18 are listed with the invariant they rely on (grouped by element type, counted) and any additional unproven access is reported. Decides the upper bound only (not `x - 1` underflow, not range slicing / char boundaries).',
         technique='interval/range discharge of MIR Assert terminators with guard provenance; loop/recursion census; panic-site census',
         design_ref='§5 C17'),
     'C07': dict(
@@ -101,7 +101,7 @@ CLAIMS = {
              'wrapped source": BoxSource (6 Source methods + stream_chunks) and CachedSource (5 content views) make exactly one Source '
              'call, the same-named method on the wrapped object with their own parameters in order, and return its result; ConcatSource\'s '
              'single-child fast paths and ReplaceSource::map forward likewise (DELEG D3). NOT decided: attribution equality of regrouped '
-             'trees, closing segments through boxed concats, empty-source neutrality. Added: STICKY (empty children cannot swallow a pending close) and ENCODE-ALL (the map recorded while streaming a CachedSource is the full map).',
+             'trees, closing segments through boxed concats, empty-source neutrality. Added: STICKY (empty children cannot swallow a pending close) and ENCODE-ALL (the map recorded while streaming a CachedSource is the full map). Round 4: FORWARD-ALL — ConcatSource forwards every child notification on every path: a nested / cached composite child attributes like the flat concatenation (defect fixed as 988c728).',
         technique='forwarding check over resolved trait callees, argument provenance and result flow on MIR',
         design_ref='§5 C13'),
     'C19': dict(
@@ -115,7 +115,7 @@ CLAIMS = {
              'bounds from the char_indices table or the text length (UNCHECKED-CALLERS + witnesses that the trait is private and the '
              'inherent method is `unsafe`); no hand-written unsafe impl; an unclassified unsafe operation is reported (fail-closed). '
              'NOT decided (undischarged, stated in evidence): that binary-search results index the right piece, that table entries are ordered '
-             'char boundaries, schedules.',
+             'char boundaries, schedules. Round 3b: RANGE-VALIDATED — a safe function that indexes the piece vector unchecked validates the requested range first, for every present/absent combination of bounds (directly or in a validator whose error is propagated).',
         technique='unsafe-operation inventory from MIR/HIR + per-class provenance / dominance / constant-byte-set rules + compile-fail witnesses',
         design_ref='§5 C19'),
     'C01': dict(
@@ -134,7 +134,7 @@ CLAIMS = {
         text='Static: the leaves the property rests on — every mapping an OriginalSource emits is the identity (original line/column are '
              'the very values reported as generated line/column, or both 0; source index 0; no name) and it announces exactly (0, its name '
              'field, Some(its own text)), field roles taken from the public constructor (IDENT). NOT decided: provenance through '
-             'Concat/Replace/Cached, statement-start resolution, columns=false attribution. Added: ConcatSource\'s pending-close flag is sticky (cleared only after a test that found it set, otherwise OR-carried), so an empty child cannot swallow the segment that un-maps following raw text (STICKY). Still NOT decided: position arithmetic of ReplaceSource\'s generated-end info (seeded C04-m2 is not detected).',
+             'Concat/Replace/Cached, statement-start resolution, columns=false attribution. Added: ConcatSource\'s pending-close flag is sticky (cleared only after a test that found it set, otherwise OR-carried), so an empty child cannot swallow the segment that un-maps following raw text (STICKY). Still NOT decided: position arithmetic of ReplaceSource\'s generated-end info (seeded C04-m2 is not detected). Round 4: FORWARD-ALL — no path through ConcatSource\'s chunk handler swallows a child\'s notification (found the closing-position defect of nested composites in final-source mode, fixed as 988c728).',
         technique='def-use equality of aggregate operands on MIR',
         design_ref='§5 C04'),
     'C06': dict(
@@ -143,7 +143,7 @@ CLAIMS = {
              'either forwards the child numbering unchanged or renumbers through its tables, and every OriginalLocation it builds takes the index '
              'from the matching origin; a child-local index never leaks into a renumbered space (IDX: closure-, table- and adaptor-aware origin '
              'analysis); ReplaceSource advances the original column only under the content check (ADVANCE). NOT decided: positions, that the '
-             'translated entry is the right one beyond its numbering, the amount of the advance. Added: the guard\'s verdict is the content check\'s own result for that site, not a remembered one (ADVANCE freshness); a chunk delivered with the child\'s own location object counts as child-local for both index kinds (IDX forwarded).',
+             'translated entry is the right one beyond its numbering, the amount of the advance. Added: the guard\'s verdict is the content check\'s own result for that site, not a remembered one (ADVANCE freshness); a chunk delivered with the child\'s own location object counts as child-local for both index kinds (IDX forwarded). Round 4: FORWARD-ALL — ConcatSource forwards every child notification (or records a pending close) on every path.',
         technique='index-space origin (taint-style) dataflow over MIR expression trees with closure capture and table summaries; guard provenance',
         design_ref='§5 C06'),
     'C08': dict(
@@ -151,7 +151,7 @@ CLAIMS = {
         text='Static: all four (columns, final) streaming variants of a map apply sourceRoot, announce the enumeration index of the very '
              'iteration and the content stored under it (ROOT); announcement loops complete before any point that can deliver a mapped chunk, '
              'and variants that never announce names overwrite the name index with None before every emission (EAGER); the dispatch reaches a '
-             'text-carrying variant whenever final_source = false (TEXT). NOT decided: the segment walk (active-mapping state machine, cut-offs). Added: the line-only variants advance their per-line cursor from a segment only where the segment is known to have an original (FIRST-MAPPED). Still NOT decided: the active-mapping state machine of the column variants (seeded C08-m2 is not detected).',
+             'text-carrying variant whenever final_source = false (TEXT). NOT decided: the segment walk (active-mapping state machine, cut-offs). Added: the line-only variants advance their per-line cursor from a segment only where the segment is known to have an original (FIRST-MAPPED). Still NOT decided: the active-mapping state machine of the column variants (seeded C08-m2 is not detected). Round 3b: ROOT also requires sourceRoot to be applied verbatim (no normalisation calls on the root string).',
         technique='sibling cross-check of announcer call arguments, loop/dominator ordering, SCCP on MIR',
         design_ref='§5 C08'),
     'C09': dict(
